@@ -121,7 +121,14 @@ def print_match(m):
     if k == "re":
         return rx.to_source(m[1], m[2])
     if k == "cat":
-        return "(" + " ".join(print_match(x) for x in m[1]) + ")"
+        parts = []
+        for i, x in enumerate(m[1]):
+            t = print_match(x)
+            # `"<" b/./` would be read as the binary string "<"b followed by /./ : keep a binary regex away from a preceding literal
+            if i > 0 and t.startswith("b/") and parts[-1].endswith('"'):
+                t = "(" + t + ")"
+            parts.append(t)
+        return "(" + " ".join(parts) + ")"
     if k == "end":
         return "end"
     if k == "arg":
